@@ -27,7 +27,8 @@ reg(Prop(
          'judged draws; distinct = hash of (family, type, engine, parameters, seed, first drawn values).'
          ' uniform_container behind a user distribution that keeps state between draws (reference: the same class on the std engine). min() / max() of distribution::basic judged against the wrapped distribution after construction, after param(p) and on a copy.'
          ' A user distribution whose param_type is also constructible from an initializer list; three more engines wrapped directly (mt19937_64, ranlux24_base, knuth_b).'
-         ' After the container grew by 64 elements (storage moved), 16 draws must be elements of the container at indices of the interval.',
+         ' After the container grew by 64 elements (storage moved), 16 draws must be elements of the container at indices of the interval.'
+         ' A user engine that throws when its tape runs dry: 40 draws, the tape extended after every exception; same sequence and same number of exceptions as the standard distribution on the bare engine.',
     assumptions=COMMON_ASSUMPTIONS + [
         'the reference is libstdc++\'s std::minstd_rand / std::mt19937 and std::uniform_int_distribution / uniform_real_distribution / '
         'normal_distribution constructed in the harness from the same seed and parameters, as the statement prescribes',
